@@ -148,20 +148,21 @@ def gen_tables(repo, res):
         calls = []
 
         def table_values(points, cell_, itype, el, avg, etype, ld, fc, codim=0, **k):
-            X = [list(p) for p in points]
+            X = [list(p) if not isinstance(p, NDArr) else p.tolist() for p in points]
             calls.append((el.f["k"], X))
             D = el.f["dim"] if el.f["kind"] not in ("p0",) else 1
             arr = [[[[_oracle(el, ld, fc, e, X[q], d) for d in range(D)] for q in range(len(X))] for e in range(nent)]]
             return {"array": NDArr(arr, (1, nent, len(X), D)), "offset": el.f["t_offset"], "stride": el.f["t_stride"]}
         it.overrides["get_ffcx_table_values"] = _PyCall(table_values)
-        rule_ = Node("QuadratureRule", points=[list(p) for p in pts], weights=[Fr(1, 3)] * len(pts), has_tensor_factors=False, tensor_factors=None,
+        pts_arr = NDArr([list(p) for p in pts], (len(pts), len(pts[0]) if pts else 0))  # the rule's points are a numpy array (views, in-place updates)
+        rule_ = Node("QuadratureRule", points=pts_arr, weights=[Fr(1, 3)] * len(pts), has_tensor_factors=False, tensor_factors=None,
                      id=_PyCall(lambda: "r0"))
         try:
             out = it.call_f(f, [rule_, c, integral_type, entity_type, list(mts), {}, False, mixed])
         except Raised as e:
             fail_tables(key, f"build_optimized_tables raises ({e.what}) on `{label}`", loc)
             return
-        if rule_.f["points"] != [list(p) for p in pts]:
+        if not isinstance(rule_.f["points"], NDArr) or rule_.f["points"].tolist() != [list(p) for p in pts]:
             fail_tables(key, f"`{label}`: the rule's points were permuted in place ({rule_.f['points']}): every later table and the weights use the wrong points", loc)
         if not isinstance(out, dict):
             raise AnalysisError("build_optimized_tables did not return a dict")
